@@ -275,6 +275,14 @@ def cfg_big(v):
     return ('cfg', tuple(names), ('a', 'b'), tuple(rules), 'S')
 
 
+def cfg_big_long(v, m):
+    """cfg_big(v) plus one rule with m symbols (m = 12..16): splitting it asks for m - 2 fresh variables with the same
+    hint - past a decimal carry in the numbered names used once all 26 letters are taken."""
+    _, names, sg, rules, S = cfg_big(v)
+    rhs = tuple(('a', 'b', names[v - 1])[i % 3] for i in range(m))
+    return ('cfg', names, sg, rules + ((names[4], rhs),), S)
+
+
 def cfg3_units():
     """Three-variable family for unit-rule cycles: every variable has any subset of unit rules to the other two
     variables and at most one terminal rule; S may have one extra rule a.X.  6 912 grammars (unit cycles of
